@@ -98,6 +98,16 @@ def merge(scns, tracefile):
                      "expect_ret": r["meta"].get("expect_ret", 0), "complete_supply": r["meta"].get("complete_supply", True)})
     return recs, summary, by
 
+def group_inflate(recs):
+    """group inflate scenario records by (mode, stream, dict) so TLC decodes each stream once"""
+    groups = {}
+    for r in recs:
+        k = (r["wrap"], bytes(r["inp"]), bytes(r["dict"]))
+        g = groups.setdefault(k, {"scn": r["scn"], "wrap": r["wrap"], "inp": r["inp"], "dict": r["dict"], "runs": [], "calls": []})
+        g["runs"].append({"scn": r["scn"], "api": r["api"], "calls": r["calls"], "end": r["end"], "expect_ret": r["expect_ret"], "complete_supply": r["complete_supply"]})
+        g["calls"] += [0] * len(r["calls"])
+    return list(groups.values())
+
 def judge(module, recs, wd, tag, shards=8, timeout=3000, weight=None):
     """run a trace-validation module over the scenario records, sharded over several TLC JVMs (balanced by input size)"""
     shards = max(1, min(shards, len(recs)))
@@ -116,7 +126,8 @@ def judge(module, recs, wd, tag, shards=8, timeout=3000, weight=None):
     res = {}
     for o, _ in outs:
         for x in o: res[x["scn"]] = x
-    if len(res) != len(recs): raise Infra("%s judged %d of %d scenarios" % (module, len(res), len(recs)))
+    expect = sum(len(r["runs"]) for r in recs) if recs and "runs" in recs[0] else len(recs)
+    if len(res) != expect: raise Infra("%s judged %d of %d scenarios" % (module, len(res), expect))
     return res, sum(wl for _, wl in outs)
 
 def describe(s):
